@@ -48,7 +48,7 @@ def _call(fn, *a, **k):
 
 
 @st.composite
-def states(draw, n_markets=(1, 3), index=False, max_steps=30, with_quotes=True, same_asset=False):
+def states(draw, n_markets=(1, 3), index=False, max_steps=30, with_quotes=True, same_asset=False, second_index=False):
     n = draw(st.integers(*n_markets))
     ticks = [draw(st.sampled_from([1.0, 0.5, 0.01, 1e-5])) for _ in range(n)]
     p0 = [draw(st.sampled_from([100.0, 300.0, 55.5])) for _ in range(n)]
@@ -64,7 +64,10 @@ def states(draw, n_markets=(1, 3), index=False, max_steps=30, with_quotes=True, 
     if with_quotes:
         for _ in range(draw(st.integers(0, 6))):
             quotes.append([draw(st.integers(0, n - 1 + (1 if index else 0))), draw(st.booleans()), draw(st.integers(1, 8)), draw(st.sampled_from([None, 3]))])
-    return {"n": n, "ticks": ticks, "p0": p0, "steps": steps, "quotes": quotes, "index": index,
+    idx2 = None
+    if index and second_index and draw(st.booleans()):
+        idx2 = {"p0": draw(st.sampled_from([90.0, 200.0, 310.0])), "trade": [draw(st.one_of(st.none(), st.floats(0.9, 1.1))) for _ in range(T + 1)]}
+    return {"n": n, "ticks": ticks, "p0": p0, "steps": steps, "quotes": quotes, "index": index, "index2": idx2,
             "index_p0": draw(st.sampled_from([100.0, 150.0, 300.0])) if index else None, "shares": draw(st.sampled_from([100, 2000])),
             "seed": draw(st.integers(0, 2**31 - 1))}
 
@@ -83,15 +86,22 @@ def build_state(state):
         idx = IndexMarket(market_id=n, prng=random.Random(n), simulator=sim, name="IDX")
         idx.setup({"tickSize": 1.0, "marketPrice": state["index_p0"], "markets": [m.name for m in markets]})
         sim._add_market(idx)
-    allm = markets + ([idx] if idx is not None else [])
+    idx2 = None
+    if state.get("index2"):
+        # a second index over the first two components
+        idx2 = IndexMarket(market_id=n + 1, prng=random.Random(n + 1), simulator=sim, name="IDX2")
+        idx2.setup({"tickSize": 1.0, "marketPrice": state["index2"]["p0"], "markets": [m.name for m in markets[:2]]})
+        sim._add_market(idx2)
+    allm = markets + ([idx] if idx is not None else []) + ([idx2] if idx2 is not None else [])
     for m in allm:
         m._is_running = True
 
     def advance(funds):
         for i, m in enumerate(markets):
             _call(m._update_time, next_fundamental_price=funds[i])
-        if idx is not None:
-            _call(idx._update_time, next_fundamental_price=idx.compute_fundamental_index(time=idx.get_time() + 1))
+        for ix in (idx, idx2):
+            if ix is not None:
+                _call(ix._update_time, next_fundamental_price=ix.compute_fundamental_index(time=ix.get_time() + 1))
 
     def trade(m, factor, vol):
         p = max(m.tick_size, round(m.get_market_price() * factor / m.tick_size) * m.tick_size)
@@ -103,7 +113,10 @@ def build_state(state):
     advance(steps[0]["fund"])
     for k, s in enumerate(steps):
         for j, m in enumerate(allm):
-            if s["trade"][j] is not None:
+            if m is idx2:
+                if state["index2"]["trade"][k] is not None:
+                    trade(m, state["index2"]["trade"][k], 1)
+            elif s["trade"][j] is not None:
                 trade(m, s["trade"][j], s["vol"][j])
         if k + 1 < len(steps):
             advance(steps[k + 1]["fund"])
@@ -212,17 +225,40 @@ def fcn_check_orders(agent, m, orders, E_expected=None):
 
 @st.composite
 def fcn_cases(draw, tier):
-    return {"state": draw(states(n_markets=(1, 2))), "params": draw(fcn_params()), "access": draw(st.sampled_from(["all", "first"])),
-            "agent_seed": draw(st.integers(0, 2**31 - 1))}
+    params = draw(fcn_params())
+    if draw(st.booleans()):
+        # a group of agents built from ONE settings dict (what the runner does), with a randomised window
+        lo = draw(st.integers(1, 30))
+        params["timeWindowSize"] = [lo, lo + draw(st.integers(1, 40))]
+    return {"state": draw(states(n_markets=(1, 2))), "params": params, "access": draw(st.sampled_from(["all", "first"])),
+            "agent_seed": draw(st.integers(0, 2**31 - 1)), "group_size": draw(st.sampled_from([1, 1, 2, 3]))}
 
 
 def fcn_check(case):
+    import copy
+
     sim, markets, idx, allm = build_state(case["state"])
-    a = FCNAgent(agent_id=7, prng=random.Random(case["agent_seed"]), simulator=sim, name="fcn")
     acc = [m.market_id for m in markets] if case["access"] == "all" else [markets[0].market_id]
-    _call(a.setup, settings=case["params"], accessible_markets_ids=acc)
-    orders = _call(a.submit_orders, markets=allm)
+    shared = copy.deepcopy(case["params"])  # one dict for the whole group, as SequentialRunner passes it
+    group = []
+    for g in range(case.get("group_size", 1)):
+        ag = FCNAgent(agent_id=7 + g, prng=random.Random(case["agent_seed"] + 1000 * g), simulator=sim, name=f"fcn{g}")
+        _call(ag.setup, settings=shared, accessible_markets_ids=acc)
+        group.append(ag)
+    if shared != case["params"]:
+        raise Violation("C20.setup_mutates_group_settings", f"FCNAgent.setup changed the settings dict shared by its group: {shared} (was {case['params']})")
     classes = set()
+    for ag in group:
+        if "meanReversionTime" not in case["params"] and ag.mean_reversion_time != ag.time_window_size:
+            raise Violation("C20.fcn_default_mean_reversion_time", f"agent {ag.name}: meanReversionTime is not configured, so it defaults to the agent's own "
+                                                                   f"timeWindowSize {ag.time_window_size}, but it is {ag.mean_reversion_time}")
+        tw = case["params"]["timeWindowSize"]
+        if isinstance(tw, list) and not (tw[0] <= ag.time_window_size <= tw[1]):
+            raise Violation("C20.fcn_window_support", f"timeWindowSize {ag.time_window_size} outside {tw}")
+    if len(group) > 1:
+        classes.add("group")
+    a = group[-1]
+    orders = _call(a.submit_orders, markets=allm)
     for o in orders:
         if o.market_id not in acc:
             raise Violation("C20.accessible_market", f"FCN agent with access to {acc} ordered on market {o.market_id}")
@@ -370,7 +406,7 @@ def maker_check(case):
 
 @st.composite
 def arb_cases(draw, tier):
-    state = draw(states(n_markets=(2, 3), index=True, max_steps=6, with_quotes=False))
+    state = draw(states(n_markets=(2, 3), index=True, max_steps=6, with_quotes=False, second_index=True))
     return {"state": state, "volume": draw(st.integers(1, 20)), "threshold": draw(st.sampled_from([0.0, 0.5, 1.0, 5.0, 20.0]) | st.floats(0.0, 50.0)),
             "ttl": draw(st.one_of(st.none(), st.integers(1, 9))), "stopped": draw(st.sampled_from([None, None, None, "index", "component"])),
             "index_access": draw(st.sampled_from([True, True, True, False])), "agent_seed": draw(st.integers(0, 1000)),
@@ -384,10 +420,11 @@ def arb_check(case):
     threshold = case["threshold"]
     if case.get("threshold_at_gap"):
         threshold = abs(idx.get_market_price() - idx.get_index())
+    idx2 = next((ix for ix in allm if isinstance(ix, IndexMarket) and ix is not idx), None)
     settings = {"cashAmount": 1000, "assetVolume": 10, "orderVolume": case["volume"], "orderThresholdPrice": threshold}
     if case["ttl"] is not None:
         settings["orderTimeLength"] = case["ttl"]
-    acc = [m.market_id for m in markets] + ([idx.market_id] if case["index_access"] else [])
+    acc = [m.market_id for m in markets] + ([idx.market_id] if case["index_access"] else []) + ([idx2.market_id] if idx2 is not None else [])
     _call(a.setup, settings=settings, accessible_markets_ids=acc)
     if case["stopped"] == "index":
         idx._is_running = False
@@ -395,34 +432,39 @@ def arb_check(case):
         markets[-1]._is_running = False
     orders = _call(a.submit_orders, markets=allm)
     wellformed(orders, a, {m.market_id for m in allm}, case["ttl"] if case["ttl"] is not None else 1, "arbitrage agent")
-    ip = idx.get_market_price()
-    iv = idx.get_index()  # the index value the documentation refers to (C17 checks it against the weighted average)
-    ref = math.fsum(m.get_market_price() for m in markets) / len(markets)  # equal shares
-    if not math.isclose(iv, ref, rel_tol=1e-12):
-        return CaseInfo(skipped=True, classes=["index_value_off"])
-    gap = ip - iv
-    should = case["stopped"] is None and case["index_access"] and abs(gap) > threshold
-    near = False  # gap and threshold are the very floats the agent compares: the boundary is exact
-    if not should or near:
-        if orders and not near:
-            raise Violation("C20.arb_acts_only_beyond_threshold", f"index price {ip!r}, index value {iv!r}, threshold {threshold!r}, stopped {case['stopped']}, "
+    indexes = [ix for ix in allm if isinstance(ix, IndexMarket)]
+    expected = []
+    gaps = []
+    for ix in indexes:
+        comps = ix.get_components()
+        ip = ix.get_market_price()
+        iv = ix.get_index()  # the index value the documentation refers to (C17 checks it against the weighted average)
+        ref = math.fsum(m.get_market_price() for m in comps) / len(comps)  # equal shares
+        if not math.isclose(iv, ref, rel_tol=1e-12):
+            return CaseInfo(skipped=True, classes=["index_value_off"])
+        gap = ip - iv
+        gaps.append(gap)
+        stopped = (case["stopped"] == "index" and ix is idx) or (case["stopped"] == "component" and markets[-1] in comps)
+        if not stopped and a.is_market_accessible(ix.market_id) and abs(gap) > threshold:
+            buy_index = gap < 0
+            expected.append((ix.market_id, buy_index, len(comps) * case["volume"], ip))
+            for m in comps:
+                expected.append((m.market_id, not buy_index, case["volume"], m.get_market_price()))
+    got = sorted((o.market_id, o.is_buy, o.volume, o.price) for o in orders)
+    if any(o.kind != LIMIT_ORDER for o in orders):
+        raise Violation("C20.arb_order_kind", "arbitrage agent emitted a non-limit order")
+    if got != sorted(expected):
+        if not expected:
+            raise Violation("C20.arb_acts_only_beyond_threshold", f"index price / index value gaps {gaps!r}, threshold {threshold!r}, stopped {case['stopped']}, "
                                                                   f"index accessible {case['index_access']}: {len(orders)} orders emitted")
-        return CaseInfo(nontrivial=False, classes=["idle", "stopped" if case["stopped"] else "running"] + (["gap_equals_threshold"] if abs(gap) == threshold else []),
-                        sample={"gap": gap, "threshold": threshold})
-    n = len(markets)
-    io = [o for o in orders if o.market_id == idx.market_id]
-    if len(io) != 1 or len(orders) != n + 1:
-        raise Violation("C20.arb_basket", f"gap {gap!r} beyond threshold {threshold!r}: {len(io)} index order(s), {len(orders) - len(io)} component order(s) for {n} components")
-    buy_index = gap < 0
-    if io[0].is_buy != buy_index or io[0].volume != n * case["volume"] or io[0].price != ip or io[0].kind != LIMIT_ORDER:
-        raise Violation("C20.arb_index_order", f"index order buy={io[0].is_buy} volume={io[0].volume} price={io[0].price!r}; expected buy={buy_index} volume={n * case['volume']} price={ip!r}")
-    for m in markets:
-        co = [o for o in orders if o.market_id == m.market_id]
-        if len(co) != 1 or co[0].is_buy == buy_index or co[0].volume != case["volume"] or co[0].price != m.get_market_price() or co[0].kind != LIMIT_ORDER:
-            raise Violation("C20.arb_component_order", f"component {m.name}: {[(o.is_buy, o.volume, o.price) for o in co]}; expected one {'sell' if buy_index else 'buy'} "
-                                                       f"of {case['volume']} at {m.get_market_price()!r}")
-    return CaseInfo(nontrivial=True, classes=["buy_index" if buy_index else "sell_index"], sample={"gap": gap, "threshold": threshold, "n": n,
-                                                                                              "orders": [[o.market_id, o.is_buy, o.volume, o.price] for o in orders]})
+        raise Violation("C20.arb_basket", f"gaps {gaps!r} vs threshold {threshold!r}: emitted (market, is_buy, volume, price) {got}, documented {sorted(expected)} "
+                                          f"(one index order of n*v and n component orders of v on the opposite side per mispriced index)")
+    if not expected:
+        return CaseInfo(nontrivial=False, classes=["idle", "stopped" if case["stopped"] else "running"] + (["gap_equals_threshold"] if any(abs(g) == threshold for g in gaps) else []),
+                        sample={"gaps": gaps, "threshold": threshold})
+    n_act = sum(1 for e in expected if e[0] in [ix.market_id for ix in indexes])
+    classes = ["buy_index" if expected[0][1] else "sell_index"] + (["two_indexes_act"] if n_act == 2 else []) + (["two_indexes"] if len(indexes) == 2 else [])
+    return CaseInfo(nontrivial=True, classes=classes, sample={"gaps": gaps, "threshold": threshold, "orders": [list(g) for g in got]})
 
 
 PARTS = {
